@@ -747,6 +747,81 @@ def l23(ctx, rid):
         ctx.ok(rid, 'no-panicking-time-subtraction', '', 'no panicking time subtraction in %d worker functions' % n, nontrivial=False, queries=n)
 
 
+def l24(ctx, rid):
+    """for the worker the absence of an active blob is an ordinary state (the client may close it between the request and its
+    handling): no worker body unwraps / expects an Option that comes from the active-blob slot - a panic there ends the worker
+    task and with it every later rotation, dump and sync request of the session"""
+    prog = ctx.prog
+    n = 0
+    bad = None
+    for f in prog.fns.values():
+        if f.file != WORKER_FILE:
+            continue
+        for c in f.calls:
+            if c.bb not in f.reachable() or c.name not in ('unwrap', 'expect', 'unwrap_unchecked') or not c.path.startswith('std::option::Option'):
+                continue
+            n += 1
+            for o in core.origins_ip(prog, f, c.args[0], depth=2):
+                if (o.kind == 'call' and o.data.name in ('read_active_blob', 'active_blob', 'read_active_blob_mut', 'take_active_blob')) or \
+                   (o.kind == 'field' and str(o.data[1]) == 'active_blob'):
+                    bad = c
+    active_reads = sum(1 for f in prog.fns.values() if f.file == WORKER_FILE for c in f.calls if c.name in ('read_active_blob', 'active_blob'))
+    if active_reads < 1:
+        raise core.AnchorLost('reads of the active-blob slot in the worker: %d' % active_reads)
+    if bad:
+        ctx.bad(rid, 'worker-tolerates-no-active-blob', bad.where(), 'the worker unwraps the active blob: when the client closed it between the request and its handling the worker task panics and background maintenance stops for the session')
+    else:
+        ctx.ok(rid, 'worker-tolerates-no-active-blob', '', '%d Option unwraps in the worker, none of the active-blob slot (%d reads of the slot)' % (n, active_reads), nontrivial=False, queries=n + active_reads)
+
+
+def l25(ctx, rid):
+    """a deadline armed for the deferred index dump always has its event: in a worker body that empties `deferred_index_dump_info`
+    (take / None), no path leads from there through `update_deadline` to the return without a new event being stored.  An armed deadline
+    without an event fires into nothing - the requested dump is silently dropped"""
+    prog = ctx.prog
+    n = 0
+    for f in prog.fns.values():
+        if f.file != WORKER_FILE:
+            continue
+        empties, stores = [], []
+        for i in f.reachable():
+            b = f.blocks[i]
+            for s in b['s']:
+                if s['k'] == 'a' and core.place_fields(s['d'])[-1:] == ['deferred_index_dump_info']:
+                    r = s['r']
+                    none = r['k'] == 'agg' and r.get('adt') == 'std::option::Option' and r.get('variant') == 'None'
+                    if r['k'] == 'use':
+                        ogs = core.origins(f, r['o'])
+                        none = bool(ogs) and all(o.kind == 'agg' and o.data.get('variant') == 'None' for o in ogs)
+                    if none:
+                        empties.append(i)
+                    elif r['k'] == 'agg' and r.get('adt') != 'std::option::Option':
+                        pass    # construction of the worker itself
+                    else:
+                        stores.append(i)
+            c = f.call_at(i)
+            if c is not None and c.name in ('take', 'replace') and c.args:
+                for o in core.origins(f, c.args[0], stop_fields=True):
+                    if o.kind == 'field' and str(o.data[1]) == 'deferred_index_dump_info':
+                        empties.append(i)
+        if not empties:
+            continue
+        arms = [c.bb for c in f.calls if c.bb in f.reachable() and c.name == 'update_deadline']
+        for e in sorted(set(empties)):
+            n += 1
+            key = 'armed-deadline-has-event|%s' % prog.fns[f.id].root
+            reach = f.reach_from(f.after(e), avoid_enter=stores)
+            rets = [i for i in f.reachable() if f.blocks[i]['t']['k'] == 'return']
+            # armed with the event still out - and the handler can return without storing one (the order of the two is free)
+            loose = [a for a in arms if a in reach and any(r in f.reach_from(f.after(a), avoid_enter=stores) for r in rets)]
+            if loose:
+                ctx.bad(rid, key, f.where(e), 'the deferred index-dump event is taken out here and the deadline is armed again (%s) without the event being put back: when that deadline fires nothing is registered and the requested dump never runs' % f.where(loose[0]))
+            else:
+                ctx.ok(rid, key, f.where(e), 'no deadline is armed after the event was cleared unless a new event is stored first')
+    if n < 1:
+        raise core.AnchorLost('places that clear the deferred index-dump event: %d' % n)
+
+
 RULES = [
     Rule('C13.L1', 'the worker loop is only left through the Stop arm (recv() == None) and contains no reachable panic written in the worker module', l1, 4),
     Rule('C13.L3', 'one channel, Sender never cloned, stored only in the Running state, dropped before the worker handle is awaited', l3, 4),
@@ -768,6 +843,8 @@ RULES = [
     Rule('C13.L21', 'the allocation counter of a reloaded index is seeded from vector capacities (C15.A13 instance)', l21, 1),
     Rule('C13.L22', 'the worker never aborts its background tasks', l22, 1),
     Rule('C13.L23', 'the worker performs no panicking subtraction of times', l23, 1),
+    Rule('C13.L24', 'the worker never unwraps the active-blob slot', l24, 1),
+    Rule('C13.L25', 'no deadline is armed for a deferred dump whose event was taken out', l25, 1),
     Rule('C13.L15', 'the blob id counter is never given back: a creation failure bound to one file name cannot repeat for ever (C07.H6 instances)', l15, 3),
     Rule('C13.L8', 'request-pending / in-progress flags are released on every path of their handler (C12.S8 instances)', l8, 1),
 ]
